@@ -38,6 +38,7 @@ import (
 	"fmt"
 	"io"
 	"os"
+	"strings"
 
 	"github.com/robertkrimen/otto/ast"
 	"github.com/robertkrimen/otto/file"
@@ -210,7 +211,15 @@ func ParseFile(fileSet *file.FileSet, filename string, src interface{}, mode Mod
 //
 // The parameter list, if any, should be a comma-separated list of identifiers.
 func ParseFunction(parameterList, body string) (*ast.FunctionLiteral, error) {
-	src := "(function(" + parameterList + ") {\n" + body + "\n})"
+	// The parameter text must be a parameter list by itself (15.3.2.1): a line comment it
+	// leaves open ends with it, so the closing parenthesis goes on a line of its own then
+	// (only then: positions reported for the body stay as they are otherwise).
+	closing := ")"
+	if strings.Contains(parameterList, "//") {
+		closing = "\n)"
+	}
+	src := "(function(" + parameterList + closing + " {\n" + body + "\n})"
+	parenthesis := len("(function(") + len(parameterList) + len(closing) // 1-based position of ")"
 
 	p := newParser("", src, 1, nil)
 	program, err := p.parse()
@@ -218,11 +227,13 @@ func ParseFunction(parameterList, body string) (*ast.FunctionLiteral, error) {
 		return nil, err
 	}
 
-	// The text must be exactly one function: a parameter list or body that closes the
-	// function early ("})(function(){") parses, but not as what was asked for.
+	// The text must be exactly one function whose parameter list and body are the two texts:
+	// a parameter list or body that closes the function early ("})(function(){"), or a block
+	// comment that runs from one text into the other, parses, but not as what was asked for.
 	if len(program.Body) == 1 {
 		if statement, ok := program.Body[0].(*ast.ExpressionStatement); ok {
-			if function, ok := statement.Expression.(*ast.FunctionLiteral); ok && int(function.Idx1()) == len(src) {
+			if function, ok := statement.Expression.(*ast.FunctionLiteral); ok && int(function.Idx1()) == len(src) &&
+				int(function.ParameterList.Closing) == parenthesis && int(function.Body.Idx0()) == parenthesis+2 {
 				return function, nil
 			}
 		}
